@@ -1,32 +1,50 @@
-(* Lemmas about Class/CBOGeneric.v (C13): whatever the base / the type arguments are, a Subscript node
-   contributes nothing to the dependency set, although the property counts the base (and the classes
-   named inside the generic annotation). *)
+(* Lemmas about Class/CBOGeneric.v (C13): a parametrised base class is counted (the base, not its type
+   arguments), and the classes named inside a generic whose container is written through its module are
+   exactly the ones counted. *)
 From Coq Require Import ZArith NArith List String Bool.
-From PV Require Import Class.Syntax Class.SetK Class.CBO Class.CBOGeneric.
+From PV Require Import Class.Syntax Class.SetK Class.CBO Class.CBOProofs Class.CBOGeneric.
 Import ListNotations.
 Open Scope N_scope.
 
-Lemma subscript_never_named : forall c args, extract_class_name_subscript (build_subscript c args) = None.
-Proof. intros c args. reflexivity. Qed.
-
-Lemma generic_base_never_counted : forall o g, generic_base_deps o g = [].
+Lemma generic_base_is_plain_base : forall o g, generic_base_deps o g = dep_of_name o (gb_base g).
 Proof. intros o [b a]. reflexivity. Qed.
 
-Lemma qualified_generic_never_counted : forall o c args, qualified_generic_deps o c args = [].
-Proof. intros o c args. reflexivity. Qed.
+(* the base is counted unless it is a built-in, whatever the type arguments *)
+Lemma generic_base_counted : forall g, ref_ok (gb_base g) ->
+  generic_base_deps default_options g = generic_base_required g.
+Proof.
+  intros [b a] H; unfold generic_base_deps, generic_base_required, extract_class_name_subscript; simpl in *.
+  rewrite extract_class_name_ok, should_include_ref_default by assumption. destruct (is_builtin b); reflexivity.
+Qed.
+Lemma generic_base_required_allowed : forall g z, In z (generic_base_required g) -> In z (generic_base_allowed g).
+Proof. intros [b a] z; unfold generic_base_required, generic_base_allowed; simpl. destruct (negb (is_builtin b)); simpl; tauto. Qed.
 
-Lemma subscript_never_counted : forall o g c args,
-  generic_base_deps o g = [] /\ qualified_generic_deps o c args = [].
-Proof. intros o g c args. split; [apply generic_base_never_counted | apply qualified_generic_never_counted]. Qed.
+Lemma generic_base_counted_within : forall g, ref_ok (gb_base g) ->
+  generic_base_deps default_options g = generic_base_required g /\
+  (forall z, In z (generic_base_deps default_options g) -> In z (generic_base_allowed g)).
+Proof.
+  intros g H. split; [exact (generic_base_counted g H)|].
+  rewrite (generic_base_counted g H). exact (generic_base_required_allowed g).
+Qed.
+
+(* the type arguments of mod.Container[...] are counted, the container is not *)
+Lemma qualified_generic_exact : forall c args, Forall ref_ok args ->
+  set_of (qualified_generic_deps default_options c args) = qualified_generic_spec args.
+Proof.
+  intros c args H; unfold qualified_generic_deps, qualified_generic_spec; simpl. apply set_of_ext. intros z.
+  rewrite filter_In, in_flat_map, negb_true_iff. split.
+  - intros [r [Hr Hz]]. rewrite Forall_forall in H. apply dep_of_name_In in Hz; [| auto]. destruct Hz; subst; auto.
+  - intros [Hr Hz]. exists z; split; auto. rewrite Forall_forall in H. apply dep_of_name_In; auto.
+Qed.
 
 Definition w_gbase : gbase := GBase (Plain (nm "Repository")) [Plain (nm "User")].
-Lemma cbo_generic_base_refuted :
-  generic_base_deps default_options w_gbase = [] /\ generic_base_required w_gbase = [Plain (nm "Repository")].
+Lemma cbo_generic_base_counted :
+  generic_base_deps default_options w_gbase = [Plain (nm "Repository")] /\ generic_base_required w_gbase = [Plain (nm "Repository")].
 Proof. split; vm_compute; reflexivity. Qed.
 
-Lemma cbo_qualified_generic_refuted :
-  qualified_generic_deps default_options (Qual (nm "typing") (nm "List")) [Plain (nm "User")] = [] /\
-  qualified_generic_spec [Plain (nm "User")] = [Plain (nm "User")].
+Lemma cbo_qualified_generic_counted :
+  qualified_generic_deps default_options (Qual (nm "typing") (nm "Dict")) [Plain (nm "str"); Plain (nm "User")] = [Plain (nm "User")] /\
+  qualified_generic_spec [Plain (nm "str"); Plain (nm "User")] = [Plain (nm "User")].
 Proof. split; vm_compute; reflexivity. Qed.
 
 (* the spec sides are not vacuous: a built-in base / argument is not required *)
